@@ -21,7 +21,7 @@ CHECKS = {
              "attribute, multisection with a fixed name, default vs required, default keying, colliding wildcard "
              "defaults also under a derived key type, malformed names / attributes / handlers / prefixes, reserved "
              "getSection prefix, required values, unknown datatypes and key types, nesting, unknown elements, stray "
-             "text) and 10 preserving operators.",
+             "text) and 10 preserving operators. Plus: the DTD nesting matrix (14 child tags at every element and inside every legal first-level child, text-only parents included), text at every position, two-container documents under every key-type combination judged per container, every name-bearing attribute enumerated as a string (37 slots x 3 positions x key types), and containers whose history lies in base schema files (5 layouts x 66 key-type combinations).",
         note="Each violating operator breaks a rule by construction at its site; pairs only at elements neither of "
              "which contains the other.  Not generated (unspecified): <default> inside a plain <key>, required with "
              "<default> on multikey / wildcard, malformed XML, cardinality of <description>, well-formed dotted "
@@ -38,7 +38,7 @@ CHECKS = {
              "datatype and key type, schema-level extends of 1..3 base files in 5 key-type situations (conflicts must "
              "be refused), component imports along every import graph over 3 generated packages x every import list "
              "of length <= 3 (import orders that leave a type undefined must be refused).  Identical outcome (value "
-             "tree or rejection) for every text; acceptance of the schema itself identical.",
+             "tree or rejection) for every text; acceptance of the schema itself identical. Plus: spellings of an import reference (file omitted / explicit / prefix-relative) with two component files per package and %import of components the schema already has; homonymous dotted names that mean different functions under different prefixes (schema / section type / derived type / component / base file); histories of reads with %import lists against one composed schema object.",
         note="Trusted: vz/gen/expand.py (written from the statement).  Texts in C01's unspecified regions are not "
              "compared; top-level attribute order is not compared for schema-level extends (merge order is not in the "
              "statement).  Only two prefix-bearing nesting levels exist in the schema language.",
@@ -55,7 +55,7 @@ CHECKS = {
              "conversion, the i-th section datatype call) x 2 exception types.  After return or raise: every Resource "
              "handed out by createResource has closed == True and file is None and its file is closed; every urlopen "
              "stream is closed and was already closed when createResource was called; a following failure-free load "
-             "gives the failure-free outcome.",
+             "gives the failure-free outcome. Plus: the public entry points (loadSchema, loadSchemaFile, loadConfig, loadConfigFile, an ExtendedConfigLoader object reloaded after a failed load) x command-line override sets (fault points between the open of a resource and its first read), and every %include back edge with a repeat / reload on the same loader.",
         note="Trusted: class-level wrapper of BaseLoader.createResource, wrappers of urllib.request.urlopen and "
              "ZConfig.loader.openPackageResource installed by the harness (vz/engine/faults.py), counting datatypes in "
              "vz/harness/vzdt.py.  file: and package: resources only; one fault per run; re-use of a ConfigLoader "
@@ -131,7 +131,7 @@ CHECKS = {
              "range in an included resource, two nested includes (in-memory, distinct URLs).  Oracle: .lineno == "
              "1-based culprit line within its resource, .url == that resource's URL; for conversion errors .value == "
              "offending text and .exception is the very ValueError instance the datatype raised; both spellings of "
-             "empty sections.",
+             "empty sections. Plus: $-faults in 6 carriers (key, multikey, first / repeated %define, %include, %import) x 6 constructs x 5 histories of the referenced definition, at every line position of every resource.",
         note="The position of a rejecting *section datatype* is not compared (not in the statement's list; it runs "
              "when the enclosing container finishes).  Single faults only.",
         design="DESIGN.md section 3, C08", engine="E3 deviate"),
@@ -148,7 +148,7 @@ CHECKS = {
              "names / integers follow the documented table; the STDOUT/STDERR and old-files refusals hold; a format "
              "accepted at load time builds and formats an ordinary record; the reopenable-handler registry equals the "
              "live unclosed file handlers after every operation sequence (states / transitions of the registry BFS "
-             "reported).",
+             "reported). Plus: handler-section histories (every section loaded after every other one in fresh processes; sibling handlers of one logger) and logger-section histories (a factory run on the tree another section configured).",
         note="Trusted: vz/ref/logmodel.py, CPython's logging.Formatter / string.Template as the rendering oracle.  "
              "The exception class of a load-time format refusal is not compared (statement silent).  Unspecified "
              "option combinations (interval without when, both when and max-size, old-files alone, neutral-valued "
@@ -166,7 +166,7 @@ CHECKS = {
              "unit), exact result on the documented domain, idempotence of the key-normalising converters; exhaustive "
              "within the stated bounds (41 M cases quick, 487 M thorough).  For the five regex datatypes the full-match "
              "language is decided for strings of every length by exploring the product of the determinised live "
-             "pattern with a reference automaton (states / transitions reported).",
+             "pattern with a reference automaton (states / transitions reported). Plus call histories: every case converted again after the caller mutated the first result, a reverse-order pass through a second registry, all 650 ordered datatype pairs and all ordered input pairs on short strings; ZConfig.datatypes is reloaded per shard so that state kept by a converter cannot hide behind scheduling.",
         note="Trusted: vz/ref/dtypes.py (IPv6 validator self-tested against ipaddress at start-up), re._parser node "
              "semantics as re-implemented in vz/engine/dfa.py (validated against rx.fullmatch at every code point on "
              "every run), os.path for existing-*.  The prefix-match-then-compare gap of RegularExpressionConversion is "
@@ -184,7 +184,7 @@ CHECKS = {
              "names of 1 (quick) / 2 (thorough) characters over 15 URL-neutral symbols incl. space and non-ASCII, 26 "
              "two-hop layouts (same / sub / parent directory per hop), %include / import src / schema extends, 3 "
              "working directories, 5 ways of naming the top resource, 4 variants (good, failing leaf, #fragment on the "
-             "reference, #fragment on the top name), decoy files at every other slot.  Exhaustive within the bounds.",
+             "reference, #fragment on the top name), decoy files at every other slot.  Exhaustive within the bounds. Plus: five spellings of the in-file references (percent-encoded upper / lower, literal, mixed), three more top-URL forms, and every ordered pair of different characters as (directory name, file stem).",
         note="Trusted: vz/ref/urls.py, the POSIX tmpfs with UTF-8 names.  Unspecified regions (scheme case, host-form "
              "file URLs, network-path references ...) are checked for totality and file:/// form only.  Remote and "
              "package: URLs are not part of this check.",
@@ -199,7 +199,7 @@ CHECKS = {
              "blank or comment line at every position, letter case of every section type (openers and closers "
              "independently), section name, define name, $-reference and (basic-key containers) key, <t/> <-> "
              "<t></t>, swap of adjacent lines of different keys.  Depth 2 (quick) / 3 and 4 along a reduced set "
-             "(thorough).  Same value tree (application objects compared by structural digest) or same rejection.",
+             "(thorough).  Same value tree (application objects compared by structural digest) or same rejection. Plus: a three-container key-type family (27 schemas) with per-line key-case rewrites, every closure loaded in both orders, each order in a fresh process (the seed's outcome must not depend on what was loaded before).",
         note="Trusted: tree()/_otree digests.  Case rewrites touch ASCII letters only; key case only where the "
              "container's key type is basic-key.",
         design="DESIGN.md section 3, C15", engine="E3 deviate"),
@@ -212,7 +212,7 @@ CHECKS = {
              "x {literal, empty, padded, $other, $$other, ${other}x}, illegal names, uses of every spelling, entering "
              "and leaving %include-d resources (depth 2, served through the public openResource override).  Each "
              "transition: the files are loaded twice against one schema object; outcome (values of the uses / "
-             "syntax error / replacement error with the name) equals the reference DefineSpace.",
+             "syntax error / replacement error with the name) equals the reference DefineSpace. Plus (after the seeding waves): a name-position token alphabet inside the BFS, multi-load sessions on ONE loader object (every ordered pair / triple of short texts, five loader variants, refused first loads), and every Unicode code point at four positions of the %define name judged by consistency (accepted iff isname(); an accepted name can be referred to and is write-once).",
         note="Trusted: vz/ref/subst.py DefineSpace.  A refused %define is 'rejected as a syntax error' whichever of "
              "ConfigurationSyntaxError / its subclass SubstitutionReplacementError is raised.",
         design="DESIGN.md section 3, C05", engine="E2 bfs"),
@@ -225,7 +225,7 @@ CHECKS = {
              "a define/use/section alphabet with three names).  Fragments in the same directory, a sub-directory "
              "whose name holds a space, or the parent directory of the includer, referenced relatively; nested "
              "fragments resolve against their own includer.  ZConfig.loadConfig(path) vs "
-             "loadConfigFile(StringIO(original)): equal tree or both rejected.",
+             "loadConfigFile(StringIO(original)): equal tree or both rejected. Plus: folded layouts (one fragment included from several places, diamonds, chains) incl. a reused loader with a faulty and then repaired fragment; spellings of the %include reference (5 forms x 12 ways of producing it through $-expansion / environment x 3 name kinds x 4 %define sites).",
         note="Include arguments are URL-quoted relative references.  Remote URLs not covered (no network).",
         design="DESIGN.md section 3, C06", engine="E3 deviate"),
     "C16": dict(
@@ -238,7 +238,7 @@ CHECKS = {
              "accepted node: len(handler); call sequence and delivered values (canonical equality with the reference "
              "entry, and identity with an object of the returned tree for containers / sections) for the complete "
              "map; the upper-cased map; each single name missing (configuration error, zero calls), mapped to None "
-             "(skipped, rest in order), duplicated in another letter case (configuration error, zero calls).",
+             "(skipped, rest in order), duplicated in another letter case (configuration error, zero calls). Plus: 14 kinds of callables (falsy, equal-to-anything, unhashable, raising __bool__ ...), 5 mapping kinds, None subsets and missing / duplicate names next to None or falsy values; the same texts loaded through command-line overrides (every section by name / type at any depth), override lists, one loader serving two loads and the %include route, judged by a reference model of overrides.",
         note="Trusted: entry order of vz/ref/match.py.  Map keys that are not valid basic-keys are not generated "
              "(statement silent).",
         design="DESIGN.md section 3, C16", engine="E2 bfs"),
